@@ -275,7 +275,9 @@ namespace Givaro {
             {
                     //         return _pD.modin( _pD.addin(_pD.mul( r, a, b), c), _irred );
                     //          return _pD.modin( _pD.axpy(r, a, b, c), _irred );
-		return addin(mul(r,a,b),c);
+		PolElement ab; // r may be c
+		mul(ab,a,b);
+		return add(r,ab,c);
             }
 
             // -- maxpy: r <- c - a * b mod p
